@@ -18,7 +18,7 @@ Anchor names are ASCII (Python's `\d`, `str.isalpha` are Unicode-aware).
 -/
 namespace Ufo2ft.C06
 
-inductive Err | valueError | assertionError
+inductive Err | valueError | assertionError | keyErrorObjectLibs | keyErrorMarkClass
   deriving DecidableEq, Repr
 
 /-! ### parseAnchorName -/
@@ -47,12 +47,13 @@ def keyIgnorable : List Char → Bool
   | [] => false
   | c :: _ => !c.isAlpha
 
-/-- parseAnchorName with the default prefix/separator/regex and ignoreRE = None.
-    The name is not empty (empty names are discarded by the caller). -/
-def parseChars (cs0 : List Char) : Except Err Parsed :=
-  let ctx := cs0.head? == some '*'
-  -- `anchorName[1:]` then `re.sub(r"\..*", "", anchorName)`
-  let cs := if ctx then (cs0.drop 1).takeWhile (fun c => c != '.') else cs0
+/-- the name parseAnchorName analyses: for a contextual ('*'-prefixed) anchor `anchorName[1:]` with everything from
+    the first '.' on removed (`re.sub(r"\..*", "", anchorName)`), otherwise the name itself -/
+def effName (cs0 : List Char) : List Char :=
+  if cs0.head? == some '*' then (cs0.drop 1).takeWhile (fun c => c != '.') else cs0
+
+/-- parseAnchorName after the '*' handling -/
+def parseCore (cs : List Char) (ctx : Bool) : Except Err Parsed :=
   let kn := ligSplit cs
   if cs.head? == some '_' && !kn.1.isEmpty then
     if kn.2.isSome then .error .valueError            -- "mark anchor cannot be numbered"
@@ -60,16 +61,22 @@ def parseChars (cs0 : List Char) : Except Err Parsed :=
     else .ok ⟨true, kn.1.drop 1, none, ctx⟩
   else .ok ⟨false, kn.1, kn.2, ctx⟩
 
+/-- parseAnchorName with the default prefix/separator/regex and ignoreRE = None.
+    The name is not empty (empty names are discarded by the caller). -/
+def parseChars (cs0 : List Char) : Except Err Parsed := parseCore (effName cs0) (cs0.head? == some '*')
+
 /-- the checks of NamedAnchor.__init__ -/
 def checkNamed (p : Parsed) : Except Err Parsed :=
   match p.number with
   | some n => if n < 1 then .error .valueError else .ok p
   | none => if p.key.isEmpty then .error .assertionError else .ok p
 
-def parseAnchor (cs : List Char) : Except Err Parsed :=
-  match parseChars cs with
+def checkE (r : Except Err Parsed) : Except Err Parsed :=
+  match r with
   | .error e => .error e
   | .ok p => checkNamed p
+
+def parseAnchor (cs : List Char) : Except Err Parsed := checkE (parseChars cs)
 
 /-! ### source data -/
 
@@ -77,6 +84,11 @@ structure SrcAnchor where
   name : String
   x : Q
   y : Q
+  /-- `glyph.lib["public.objectLibs"].get(anchor.identifier)` when it is a non-empty dict: its "GPOS_Context" entry
+      ("" when the dict has none); `none` = no identifier, no entry, or an empty dict -/
+  lib : Option String := none
+  /-- the anchor has an identifier but the glyph lib has no "public.objectLibs" key: the lookup raises KeyError -/
+  idNoLib : Bool := false
   deriving Repr
 
 structure SrcGlyph where
@@ -101,7 +113,8 @@ structure Input where
   notAbvm : List String       -- _getAbvmGlyphs()[1]
   deriving Repr
 
-/-- NamedAnchor (without libData; contextual and ignorable anchors never get this far) -/
+/-- NamedAnchor (ignorable anchors and contextual anchors without lib data never get this far);
+    `ctx` = the GPOS_Context string of a contextual ('*'-prefixed) anchor, `none` for every other anchor -/
 structure NA where
   name : String
   x : Q
@@ -109,6 +122,7 @@ structure NA where
   isMark : Bool
   key : String
   number : Option Nat
+  ctx : Option String := none
   deriving DecidableEq, Repr
 
 /-- util.quantize -/
@@ -118,11 +132,13 @@ def quantize (q x : Q) : Q := q * ((otRound (x / q) : Int) : Q)
     `none` = the anchor is skipped -/
 def namedAnchor (q : Q) (a : SrcAnchor) : Except Err (Option NA) :=
   if a.name = "" then .ok none
+  else if a.idNoLib then .error .keyErrorObjectLibs      -- `glyph.lib[OBJECT_LIBS_KEY]` before NamedAnchor(...)
   else match parseAnchor a.name.toList with
     | .error e => .error e
     | .ok p =>
-      if p.ctx || keyIgnorable p.key then .ok none     -- contextual without lib data / ignorable
-      else .ok (some ⟨a.name, quantize q a.x, quantize q a.y, p.isMark, String.ofList p.key, p.number⟩)
+      if (p.ctx && a.lib.isNone) || keyIgnorable p.key then .ok none     -- contextual without lib data / ignorable
+      else .ok (some ⟨a.name, quantize q a.x, quantize q a.y, p.isMark, String.ofList p.key, p.number,
+                      if p.ctx then a.lib else none⟩)
 
 /-- sequential evaluation stopping at the first exception -/
 def mapE {α β ε} (f : α → Except ε β) : List α → Except ε (List β)
@@ -277,6 +293,9 @@ def classOf (km : List (String × String)) (a : NA) : Option String :=
 
 /-! ### attachments -/
 
+/-- the anchors the non-contextual attachment builders look at (`if anchor.isContextual: continue`) -/
+def plainOf (as : List NA) : List NA := as.filter (fun a => a.ctx.isNone)
+
 /-- a base-side anchor together with its mark class -/
 structure BAnchor where
   a : NA
@@ -298,7 +317,7 @@ def baseAtts (i : Input) (al : AList) (mg : List String) (km : List (String × S
     List (String × List BAnchor) :=
   al.filterMap (fun e =>
     if mg.contains e.1 || !baseOK i e.1 then none else
-    let bm := e.2.filterMap (fun a => if a.number.isSome then none else (classOf km a).map (fun c => ⟨a, c⟩))
+    let bm := (plainOf e.2).filterMap (fun a => if a.number.isSome then none else (classOf km a).map (fun c => ⟨a, c⟩))
     if bm.isEmpty then none else some (e.1, bm))
 
 /-- the anchors that reach the `componentAnchors` bookkeeping of _makeMarkToLigaAttachments -/
@@ -318,7 +337,7 @@ def ligAtts (i : Input) (al : AList) (mg : List String) (km : List (String × St
     List (String × List (List BAnchor)) :=
   al.filterMap (fun e =>
     if mg.contains e.1 || !ligOK i e.1 then none else
-    let evs := ligEvents km e.2
+    let evs := ligEvents km (plainOf e.2)
     if evs.isEmpty then none else
     some (e.1, (List.range (maxNat (evs.filterMap (·.number)))).map (fun j => compOf km evs (j + 1))))
 
@@ -326,7 +345,7 @@ def ligAtts (i : Input) (al : AList) (mg : List String) (km : List (String × St
 def mkmkAtts (al : AList) (mg : List String) (km : List (String × String)) : List (String × String × BAnchor) :=
   al.flatMap (fun e =>
     if !mg.contains e.1 then [] else
-    e.2.filterMap (fun a => if a.number.isSome then none else (classOf km a).map (fun c => (a.key, e.1, ⟨a, c⟩))))
+    (plainOf e.2).filterMap (fun a => if a.number.isSome then none else (classOf km a).map (fun c => (a.key, e.1, ⟨a, c⟩))))
 
 /-! ### colorGraph / _groupMarkClasses -/
 
